@@ -15,10 +15,10 @@ import (
 // break ends the walk.
 
 type c05Case struct {
-	Forest model.Forest  `json:"forest"`
-	Entry  string        `json:"entry"` // md | root | iter | alias | iteralias | mdalias
-	Branch *model.Branch `json:"branch,omitempty"`
-	StopAt int           `json:"stopAt"` // -1: no stop
+	Forest model.Forest   `json:"forest"`
+	Entry  string         `json:"entry"` // md | root | iter | alias | iteralias | mdalias
+	Branch *model.Branch  `json:"branch,omitempty"`
+	StopAt int            `json:"stopAt"` // -1: no stop
 	Sp     model.Spelling `json:"spelling"`
 	PreOps []string       `json:"preOps,omitempty"` // From-Root entries: earlier operations on the same node tree
 	Late   int            `json:"late,omitempty"`   // iterator entries: the last Late nodes are added after the iterator was created
@@ -153,7 +153,9 @@ func c05Record(col *collector, c c05Case) {
 		cl = append(cl, "depth>=18")
 	}
 	col.eval(nontrivial, hash64(c.Forest.String(), c.Entry, fmt.Sprint(c.Branch, c.StopAt, c.PreOps, c.Late, c.Twice, c.CbErr), model.Spell(c.Forest, c.Sp)), cl...)
-	col.sample(func() any { return map[string]any{"forest": c.Forest.String(), "entry": c.Entry, "stopAt": c.StopAt, "branch": c.Branch} })
+	col.sample(func() any {
+		return map[string]any{"forest": c.Forest.String(), "entry": c.Entry, "stopAt": c.StopAt, "branch": c.Branch}
+	})
 }
 
 func TestC05Exhaustive(t *testing.T) {
@@ -211,6 +213,7 @@ func c05Gen() *rapid.Generator[c05Case] {
 		}
 		c := c05Case{Forest: f, Entry: entry, Branch: genBranch().Draw(t, "branch"), StopAt: -1}
 		c.Sp = genSpelling(f.HeadingOK()).Draw(t, "spelling")
+		maybeMixed(t, &c.Sp, len(f))
 		if rapid.Bool().Draw(t, "stop") {
 			c.StopAt = rapid.IntRange(0, model.Merge(f).Count()-1).Draw(t, "stopAt")
 		}
